@@ -23,7 +23,7 @@ ASSUMPTIONS = ["tiling uses a candidate set of positions: when a short inner reg
                "region both 'pad to the inner end' and 'clip at the enclosing region' are accepted",
                "a ValueConstraintViolatedError may escape only for a command code outside the command table or a selector "
                "that selects no union member (checked against the pinned layout)"]
-TIERS = {"quick": {"runs": 80000, "budget": 150, "run_timeout": 120}, "thorough": {"runs": 900000, "budget": 780, "run_timeout": 120}}
+TIERS = {"quick": {"runs": 110000, "budget": 150, "run_timeout": 120}, "thorough": {"runs": 900000, "budget": 780, "run_timeout": 120}}
 
 
 def make_case(i, rng, tier):
